@@ -39,6 +39,9 @@ type vfC06Case struct {
 	// DHCP server is enabled and has no lease of that name; the client is in
 	// a private network.
 	Local bool
+	// DHCPOn: the DHCP server is enabled although the queried name is not in
+	// its domain (the canonical name is).
+	DHCPOn bool
 }
 
 func vfC06Draw(t *rapid.T) (c *vfC06Case) {
@@ -56,6 +59,7 @@ func vfC06Draw(t *rapid.T) (c *vfC06Case) {
 		// the drawn domain lies below the key's: move it away
 		target += ".tgt"
 	}
+	targetLocal := rapid.IntRange(0, 5).Draw(t, "target_in_local_domain_with_dhcp") == 0
 	v4 := rapid.SampledFrom([]string{"10.1.2.3", "192.0.2.44", "0.0.0.0"}).Draw(t, "v4")
 	v6 := rapid.SampledFrom([]string{"2001:db8::44", "::1"}).Draw(t, "v6")
 	wild := rapid.Bool().Draw(t, "wildcard_key")
@@ -84,6 +88,13 @@ func vfC06Draw(t *rapid.T) (c *vfC06Case) {
 		// table; for a name of the DHCP server that is not the upstream, and
 		// the statement does not rank the two features
 		c.Kind = "cname_unknown_target"
+	}
+	if targetLocal && !c.Local && !wild && (c.Kind == "cname_unknown_target" || c.Kind == "cname_target_with_addr") {
+		// the canonical name lies in the local domain of an enabled DHCP
+		// server (which has no lease of that name): a canonical name like
+		// any other
+		target = "dst-host.lan"
+		c.DHCPOn = true
 	}
 	rw := func(d, a string) *filtering.LegacyRewrite { return &filtering.LegacyRewrite{Domain: d, Answer: a} }
 	switch c.Kind {
@@ -159,12 +170,12 @@ func (c *vfC06Case) describe() (m map[string]any) {
 		tab = append(tab, r.Domain+" -> "+r.Answer)
 	}
 
-	return map[string]any{"kind": c.Kind, "local_domain_with_dhcp": c.Local, "table": tab, "query": fmt.Sprintf("%s %s", c.Qname, dns.Type(c.Qtype)), "upstream_reply": c.UpReply}
+	return map[string]any{"kind": c.Kind, "local_domain_with_dhcp": c.Local, "target_in_local_domain": c.DHCPOn, "table": tab, "query": fmt.Sprintf("%s %s", c.Qname, dns.Type(c.Qtype)), "upstream_reply": c.UpReply}
 }
 
 // vfC06Check runs the case and returns an error describing the first deviation.
 func vfC06Check(c *vfC06Case) (err error) {
-	w, werr := vfNewWorld(&vfWorldConf{ProtectionEnabled: true, FilteringEnabled: true, Rewrites: c.Table, BlockedTTL: 10, DHCPEnabled: c.Local})
+	w, werr := vfNewWorld(&vfWorldConf{ProtectionEnabled: true, FilteringEnabled: true, Rewrites: c.Table, BlockedTTL: 10, DHCPEnabled: c.Local || c.DHCPOn})
 	if werr != nil {
 		return fmt.Errorf("VERIF-INCONCLUSIVE world: %w", werr)
 	}
@@ -188,7 +199,7 @@ func vfC06Check(c *vfC06Case) (err error) {
 	}
 
 	client := "198.18.0.3:999"
-	if c.Local {
+	if c.Local || c.DHCPOn {
 		client = "192.168.1.5:999"
 	}
 	o := w.run(vfQuery{Name: c.Qname + ".", Qtype: c.Qtype, Addr: netip.MustParseAddrPort(client)})
